@@ -2,19 +2,26 @@
    ReservationRef is never cleared, and a reconcile that leaves the job Failed/Timeout has deleted
    the reservation the job refers to. *)
 From Coq Require Import List ZArith Bool Lia.
-From Verif Require Import C17.Model C17.Spec C17.Hoare.
+From Verif Require Import C17.Model C17.Spec C17.Hoare C17.Proofs_ver.
 Import ListNotations.
 Open Scope Z_scope.
 
 Definition consts (j : job) := (paused j, direct j, ttl j, pvalid j, owner j).
 
-(* terminal phases short-circuit: the reconcile is the identity and records nothing *)
-Lemma reconcile_terminal_eq fx s f :
-  terminal (phase (sj s)) = true -> reconcile fx s f = (s, []).
+(* terminal phases short-circuit: nothing of the job or the reservation changes, nothing is recorded *)
+Lemma core_terminal fx s f :
+  terminal (phase (sj s)) = true -> cj (core fx s f) = sj s /\ cr (core fx s f) = sr s /\ ce (core fx s f) = [].
 Proof.
-  intros T. unfold reconcile. destruct (ignored (sj s) (sgen s)); [reflexivity|].
-  unfold do_migrate. cbn [cj]. rewrite T.
-  destruct (paused (sj s)); cbn [ctx_of cj cr ce]; destruct s; reflexivity.
+  intros T. unfold core, do_migrate. cbn [cj]. rewrite T.
+  destruct (paused (sj s)); cbn; auto.
+Qed.
+
+Lemma reconcile_terminal_eq fx s f : W s ->
+  terminal (phase (sj s)) = true ->
+  sj (fst (reconcile fx s f)) = sj s /\ sr (fst (reconcile fx s f)) = sr s /\ snd (reconcile fx s f) = [].
+Proof.
+  intros HW T. destruct (reconcile_cases fx s f HW) as [E|(_ & E)]; rewrite E; [cbn; auto|].
+  cbn [fst snd after sj sr]. apply core_terminal; auto.
 Qed.
 
 Section PassC.
@@ -120,26 +127,26 @@ Proof.
 Qed.
 
 (* one reconcile: what it never writes, and the reservation of a job it fails for timeout *)
-Lemma reconcile_frame fx s f :
+Lemma reconcile_frame fx s f : W s ->
   let r := reconcile fx s f in
   consts (sj (fst r)) = consts (sj s)
   /\ (rref (sj s) = true -> rref (sj (fst r)) = true)
   /\ (timed_out (sj s) (sj (fst r)) = true -> rref (sj s) = true -> sr (fst r) = None)
   /\ sp (fst r) = sp s /\ sbp (fst r) = sbp s /\ snow (fst r) = snow s /\ sgen (fst r) = sgen s.
 Proof.
-  cbv zeta.
+  intros HW. cbv zeta.
   assert (Same : timed_out (sj s) (sj s) = true -> rref (sj s) = true -> sr s = None).
   { intros T. apply timed_out_failed in T. destruct T as (T & P & _).
     rewrite (terminal_failed _ P) in T. discriminate. }
-  destruct (terminal (phase (sj s))) eqn:T.
-  { rewrite (reconcile_terminal_eq fx s f T). cbn. repeat split; auto. }
-  unfold reconcile. destruct (ignored (sj s) (sgen s)).
+  destruct (reconcile_cases fx s f HW) as [E|(_ & E)]; rewrite E.
   { cbn. repeat split; auto. }
-  set (e := mkREnv _ _ _ _). set (c := mkCtx _ _ _ _).
+  cbn [fst snd after sj sr sp sbp snow sgen].
+  destruct (terminal (phase (sj s))) eqn:T.
+  { destruct (core_terminal fx s f T) as (E1 & E2 & _). rewrite E1, E2. repeat split; auto. }
+  unfold core. set (e := mkREnv _ _ _ _). set (c := mkCtx _ _ _ _ _ _).
   assert (S : sat (CS (sj s)) (CG (sj s)) (do_migrate fx e c)).
   { apply C_do_migrate. subst c. unfold CG. cbn. repeat split; auto.
     intros P. rewrite (terminal_failed _ P) in T. discriminate. }
-  cbn [fst snd sj sr sp sbp snow sgen].
   destruct (do_migrate fx e c) as [c'|c']; cbn [sat ctx_of] in *.
   - destruct S as (S1 & S2 & S3). repeat split; auto.
     intros TO R. apply timed_out_failed in TO. destruct TO as (_ & P & RS). apply S3; auto.
